@@ -5,7 +5,8 @@
 //	settle-*    the registry orders settlement of an HTLC (HtlcSettleResolution returned or
 //	            delivered on the hodl channel, or the HTLC recorded as settled) only when the
 //	            HTLCs of its set that are settled with it (a) carried the invoice's payment
-//	            address if the invoice's features require one, (b) declare one common total
+//	            address if the invoice's features require one (blinded-path invoice: the path
+//	            id / address it carries, if any, is the invoice's), (b) declare one common total
 //	            (an HTLC without a total record declares its own amount and is a set of its
 //	            own), (c) that total is not below the invoice amount, (d) their amounts sum to
 //	            at least that total, (e) each left the required final-CLTV margin
@@ -123,6 +124,7 @@ type event struct {
 	spec   htlcSpec
 	key    int
 	right  bool // settle: right preimage
+	zero   bool // settle: all-zero preimage
 	replay bool
 	lax    bool // free-running execution judged against the final state only: skip "settle order refers to a recorded settled htlc"
 }
@@ -292,6 +294,8 @@ func (w *World) parse(op string) (event, error) {
 		return event{op: op, class: "settle", right: true}, nil
 	case op == "s:w":
 		return event{op: op, class: "settle"}, nil
+	case op == "s:z":
+		return event{op: op, class: "settle", zero: true}, nil
 	case op == "t":
 		return event{op: op, class: "timeout"}, nil
 	case op == "b":
@@ -320,6 +324,9 @@ func (w *World) apply(s *side, ev event, pre invObs) stepOut {
 		p := invPreimage
 		if !ev.right {
 			p = wrongPreimg
+		}
+		if ev.zero {
+			p = zeroPreimage
 		}
 		if err := s.reg.SettleHodlInvoice(bg, p); err != nil {
 			out.callErr = firstLine(err.Error())
@@ -583,7 +590,10 @@ func (w *World) judge(s *side, ev event, pre invObs, out stepOut) {
 			} else if total != sp.declaredTotal() {
 				common = false
 			}
-			if post.AddrReq {
+			// a blinded-path invoice does not set the payment_addr feature: its path id
+			// takes the place of the payment address, so an HTLC that carries a path id
+			// or an MPP address must carry the invoice's
+			if post.AddrReq || (post.Blinded && sp.Addr != 0) {
 				w.st.clause("settle-addr-required")
 				if sp.Addr != 'r' {
 					w.violate("settle-addr", store, string(sp.Pay), fmt.Sprintf("%s settled htlc k%d which did not carry the invoice's payment address (carried %q) although the invoice requires one; set: %s",
